@@ -510,3 +510,10 @@ def hello_sends_the_requests_once(b):
   return Case(HandshakeOpenFlowHandlers.handle_HELLO, [h, con, msg], calls=cs, raises={}, ensures={
     "one_send_the_first_time_none_later": lambda res: len([e for e in log(b) if e[0] == "send"]) == (0 if sent else 1),
   })
+
+
+# the accept/read loop: an accepted connection joins the select set, a connection whose read() fails or reports closed is
+# close()d exactly once and dropped (close() -> ConnectionDown is the unit above) - c10_taskloop (generators, 2026-09-25)
+import contracts.c10_taskloop as _TL
+unit(P, target=_TL.OF01 + "OpenFlow_01_Task.run", name="the_loop_closes_a_failing_connection_exactly_once")(_TL.a_failing_connection_is_closed_alone_and_the_loop_goes_on)
+unit(P, target=_TL.OF01 + "OpenFlow_01_Task.run (exceptional sockets)", name="the_loop_closes_a_socket_reported_in_error")(_TL.sockets_reported_in_error_are_closed_and_dropped)
